@@ -321,6 +321,7 @@ func runC05(c *Check, w *World) {
 		c.Decide(ok, "R05.5", fn, "field-read:"+fname, "input."+fname+" is read only where the suite selects it ("+flag+")", "input."+fname+" is read on a path where "+flag+" is not known to be set: an unselected field can influence the code", w.InstrPos(in))
 	})
 	ruleHistoryIndependence(c, w, tb, ef, "R05.H", gen)
+	checkRESTEndpoints(c, w, tb, ef, "R05.REST", "/ocra/generate")
 	c.Floor("R05.1", 8)
 	c.Floor("R05.2", 1)
 	c.Floor("R05.4", 3)
